@@ -304,6 +304,7 @@ pub fn apply(ev: &Value) -> Vec<Value> {
         }
         // ------------------------------------------------------------ instance level
         "seq" => crate::exec_inst::apply_seq(ev),
+        "chain_encode" => crate::exec_inst::apply_chain_encode(ev),
         _ if crate::exec_inst::handles(name) => crate::exec_inst::apply_one(ev),
         _ if crate::exec_text::handles(name) => crate::exec_text::apply_one(ev),
         _ if crate::exec_misc::handles(name) => crate::exec_misc::apply_one(ev),
